@@ -3,6 +3,9 @@
 set -e
 ROOT="$(cd "$(dirname "${BASH_SOURCE[0]}")" && pwd)"
 export CARGO_NET_OFFLINE=true
+export CARGO_TARGET_DIR="$ROOT/target"
+export RUSTFLAGS="--cfg pallas_verif --cfg tokio_unstable"
+unset CARGO_BUILD_RUSTFLAGS CARGO_ENCODED_RUSTFLAGS
 mkdir -p "$ROOT/build" "$ROOT/evidence" "$ROOT/replays"
 gcc -O2 -shared -fPIC -o "$ROOT/build/libverif_entropy.so" "$ROOT/shim/verif_entropy.c"
 cd "$ROOT/sim" && cargo build --release --offline
